@@ -80,7 +80,7 @@ Proof.
     + eapply sublist_trans; [apply skipSameNode_spans|exact Hs0].
     + apply Forall_app. split; [|constructor; [exact Hnode|constructor]].
       destruct (ps <? r_pos r0); [apply Forall_app; split; [exact Hacc|constructor; [apply Hplain|constructor]]|exact Hacc].
-  - cbn [andb].
+  - cbn [andb]. destruct (e <=? r_pos r0); [exact Hacc|].
     pose proof (next_spans r0) as Hn. destruct (next r0) as [ok r1]. cbn [snd] in Hn.
     destruct (negb ok); [exact Hacc|].
     destruct (jumped r1).
